@@ -525,7 +525,8 @@ def toPES(radial, intensity, energy_cal_factor, per_energy_scaling=True,
     intensity = np.array(intensity, dtype=float)
 
     if Vrep is not None:
-        energy_cal_factor *= np.abs(Vrep) / zoom**2
+        # (not *=, the argument can be an array)
+        energy_cal_factor = energy_cal_factor * np.abs(Vrep) / zoom**2
 
     eKE = radial**2 * energy_cal_factor
 
